@@ -102,4 +102,10 @@ def decodeFlow (k : Kind) (cfg : Config) (st : State) (src : Src) (recvNs : Nat)
   | .sflow => sflowPipe cfg st recvNs payload
   | .auto => autoPipe cfg st src recvNs payload
 
+/-- `formatSend` with a format / transport that refuses the k-th message of the datagram (counted from 1; 0: none):
+    the messages in front of it have been delivered, the refusal is the outcome of DecodeFlow (it takes precedence
+    over template-not-found), the state is what production left. -/
+def refuseAt (k : Nat) (o : Out) : Out :=
+  if 1 ≤ k ∧ k ≤ o.msgs.length then { o with msgs := o.msgs.take (k - 1), err := some .bad } else o
+
 end Goflow.Pipe
